@@ -50,6 +50,7 @@ theorem ph_roundtrip' (phdm : C4) (opdm : C2) (a b c d : Nat) :
 
 theorem oneMinus_involution (m : C2) (p q : Nat) : oneMinus (oneMinus m) p q = m p q := by
   unfold oneMinus
+  rw [delta_comm q p]
   exact gq_sub_of_sub _ _
 
 /-- two-hole maps: the round trip returns `tpdm[q, p, s, r]` -/
